@@ -528,6 +528,35 @@ func observers(r *sup.CaseResult, rng *rand.Rand, kind string) {
 	r.AddObs("observations_after_the_done_signal", seen)
 }
 
+// waitIsStuck decides what a Wait() that has not returned by the watchdog means: a violation
+// only if, in two goroutine dumps, the only goroutines inside goatcore are parked in
+// sync.WaitGroup.Wait (nobody is left who could ever sign off); anything else is inconclusive.
+func waitIsStuck() bool {
+	look := func() bool {
+		buf := make([]byte, 8<<20)
+		parked := false
+		for _, blk := range strings.Split(string(buf[:runtime.Stack(buf, true)]), "\n\n") {
+			if !strings.Contains(blk, "github.com/goatcms/goatcore/") || strings.Contains(blk, "[running]") {
+				continue
+			}
+			if strings.Contains(blk, "sync.(*WaitGroup).Wait") {
+				parked = true
+				continue
+			}
+			if strings.Contains(blk, "contextscope.NewIsolated.func") {
+				continue // watchers of isolated contexts sign nothing off
+			}
+			return false // somebody else is still at work inside the library
+		}
+		return parked
+	}
+	if !look() {
+		return false
+	}
+	time.Sleep(500 * time.Millisecond)
+	return look()
+}
+
 // childOfDone: child creation/closing racing with and following the parent's end.
 func childOfDone(r *sup.CaseResult, rng *rand.Rand, g int, isolated bool) {
 	parent := scope.New(scope.Params{})
@@ -661,7 +690,20 @@ func childOfDone(r *sup.CaseResult, rng *rand.Rand, g int, isolated bool) {
 				}
 			}()
 		}
-		wg2.Wait()
+		joined := make(chan struct{})
+		go func() { wg2.Wait(); close(joined) }()
+		select {
+		case <-joined:
+		case <-time.After(20 * time.Second):
+			// the parent is done and every child closes at once: only a task that was registered
+			// and never signed off can keep parent.Wait() from returning
+			if waitIsStuck() {
+				r.Violate("parent-unbalanced", "parent.Wait() of the finished scope blocks for good while children are created and closed beside it: nobody is left inside the library who could sign a task off (task accounting unbalanced)", wit)
+			} else {
+				r.Inconclusive = "waiters on the finished scope did not return within the watchdog while other goroutines were still inside the library"
+			}
+			return
+		}
 		if p2 > 0 {
 			r.Violate("child-of-done-panic", fmt.Sprintf("children of the already finished scope were created and closed while other goroutines waited on it: %d calls panicked; first: %v", p2, first2.Load()), wit)
 			return
@@ -698,7 +740,11 @@ func childOfDone(r *sup.CaseResult, rng *rand.Rand, g int, isolated bool) {
 	case <-time.After(20 * time.Second):
 		// all children are closed (joined above); a Wait that still blocks means the parent's task
 		// accounting is unbalanced. The decision is the join order, the timer is only the watchdog.
-		r.Violate("parent-unbalanced", "parent.Wait() still blocks although every child has been closed (task accounting unbalanced)", wit)
+		if waitIsStuck() {
+			r.Violate("parent-unbalanced", "parent.Wait() still blocks although every child has been closed and nobody is left inside the library (task accounting unbalanced)", wit)
+		} else {
+			r.Inconclusive = "parent.Wait() did not return within the watchdog while other goroutines were still inside the library"
+		}
 		return
 	}
 	func() {
@@ -807,7 +853,11 @@ func commandsOnEndingScope(r *sup.CaseResult, rng *rand.Rand, m *miniApp, g int)
 	select {
 	case <-done:
 	case <-time.After(20 * time.Second):
-		r.Violate("parent-unbalanced", "scope.Wait() of the command context still blocks after every command returned", wit)
+		if waitIsStuck() {
+			r.Violate("parent-unbalanced", "scope.Wait() of the command context still blocks after every command returned and nobody is left inside the library", wit)
+		} else {
+			r.Inconclusive = "scope.Wait() of the command context did not return within the watchdog while other goroutines were still inside the library"
+		}
 		return
 	}
 	func() {
